@@ -127,6 +127,19 @@ def run_special(acc, api):
         vals += [float(2 ** k), float(2 ** k) + 0.5, 10.0 ** (k % 23), 1 / (2 ** k)]
     for v in vals:
         check_number(v, acc, api, script, via_script=True)
+    # no state between calls: a fresh process that stringifies the same numbers in reversed order gives the same texts
+    from .. import core
+    sample = [0.0, -0.0, 0, 1.0, 1, -1.0, 1e21, 1e-7, 0.1, 100.0, 1e15, 1e16, 5e-324, 2.5, -2.5] + vals[:2000]
+    warm = [['ok', api[2](v)] for v in sample]
+    cold = core.cold_reversed('value_string', [refval.enc(v) for v in sample], 0)
+    if cold is None:
+        acc.note_inconclusive('cold child process for the state check failed')
+    else:
+        for v, a, b in zip(sample, warm, cold):
+            acc.count('cold_vs_warm_comparisons')
+            if a != b:
+                acc.violation('text-depends-on-earlier-calls', f'{v!r}: {a!r} in this process, {b!r} in a fresh process (reversed order)', {'x': refval.enc(v)})
+                break
     acc.cover('special_classes', 'powers-of-ten')
     acc.cover('special_classes', 'around-2^53-1e15-1e16-1e21')
     acc.cover('special_classes', 'subnormals-and-zeros')
